@@ -215,6 +215,35 @@ class ConstEval:
             # later module-level augmented assignments / re-assignments are not folded:
             if len(b.all_values) > 1:
                 raise NotConstant(f"{m.name}.{nm} is assigned more than once at module level")
+            # module-level statements after the definition that fill / modify the object in place
+            # (NAME[k] = v, NAME.update(...), loops doing so) are folded into the value
+            later = []
+            seen_def = False
+            for st in m.tree.body:
+                if st is b.stmt:
+                    seen_def = True
+                    continue
+                if not seen_def or isinstance(st, (ast.FunctionDef, ast.AsyncFunctionDef, ast.ClassDef, ast.Import, ast.ImportFrom)):
+                    continue
+                touches = False
+                for x in ast.walk(st):
+                    if isinstance(x, (ast.FunctionDef, ast.Lambda, ast.ClassDef)):
+                        continue
+                    if isinstance(x, ast.Subscript) and isinstance(x.ctx, (ast.Store, ast.Del)) and isinstance(x.value, ast.Name) and x.value.id == nm:
+                        touches = True
+                    elif isinstance(x, ast.Call) and isinstance(x.func, ast.Attribute) and isinstance(x.func.value, ast.Name) and x.func.value.id == nm and x.func.attr in _MUTATORS:
+                        touches = True
+                    elif isinstance(x, ast.AugAssign) and isinstance(x.target, ast.Name) and x.target.id == nm:
+                        touches = True
+                if touches:
+                    later.append(st)
+            if later:
+                import copy as _copy
+
+                val = _copy.deepcopy(val)
+                env2 = _Env(self, m, None, {nm: val})
+                env2.run(later)
+                val = env2.local[nm]
             self.cache[key] = val
             return val
         if kind == "func":
